@@ -3,7 +3,7 @@
    (Gen/PoolDepsGen.v, translate pooldeps: core/engine/engine.go startInstances /
    buildNewInstanceSchedule, core/engine/instance.go Run). *)
 From Coq Require Import Bool.
-From PV Require Import Gen.PoolDepsGen Model.Waiter Model.WaiterPool.
+From PV Require Import Gen.PoolDepsGen Model.Waiter Model.WaiterPool Model.ReportQueue.
 
 (* every instance runs with the configured flag -- with its own schedule or the shared one *)
 Lemma instance_discard_bridge : forall d r,
@@ -21,4 +21,12 @@ Lemma fire_cond_bridge : forall d slow,
 Proof. intros [|] [|]; reflexivity. Qed.
 
 Lemma else_reports_discarded_bridge : gen_else_reports_discarded = true.
+Proof. reflexivity. Qed.
+
+(* the phout aggregator's Report is the blocking send of Model/ReportQueue.v, and its Run drains
+   the channel when the pool is done (core/aggregator/netsample/phout.go) *)
+Lemma phout_report_bridge : report_variant gen_phout_report_plain_send = qblocking.
+Proof. reflexivity. Qed.
+
+Lemma phout_run_drains_bridge : gen_phout_run_drains = true.
 Proof. reflexivity. Qed.
